@@ -171,7 +171,7 @@ def block_sequence(r, optnum=27):
     full-size blocks: drives the received-block range array and the reassembly buffer"""
     szx = r.choice([0, 2, 2, 2, 6])
     size = 16 << szx
-    style = r.choice(["desc", "desc2", "rand", "gaps", "same"])
+    style = r.choice(["desc", "desc2", "rand", "gaps", "same", "islands", "islands"])
     n = r.choice([4, 5, 6, 8, 12])
     if style == "desc":
         nums = [60 - 2 * i for i in range(n)]
@@ -180,6 +180,12 @@ def block_sequence(r, optnum=27):
     elif style == "gaps":
         nums = [2 * i + (i % 3) for i in range(n)]
         r.shuffle(nums)
+    elif style == "islands":
+        # far-apart blocks fill the range array from the append side, then blocks between them
+        # go through the insert side (the two sites have separate "array full" tests)
+        k = r.choice([3, 4, 5])
+        nums = [100 * (i + 1) for i in range(k)] + [100 * i + 50 for i in range(r.choice([1, 2, 3, 4]))]
+        n = len(nums)
     elif style == "same":
         nums = [r.choice([0, 1, 5])] * n
     else:
@@ -195,6 +201,9 @@ def block_sequence(r, optnum=27):
             opts.append((60, r.choice([b"", b"\x40", b"\x01\x00", b"\xff\xff\xff\xff"])))
         if r.random() < 0.3:
             opts.append((292, gen_wire.rbytes(r, r.choice([0, 1, 8]))))
+        if i == n - 1 and r.random() < 0.4:
+            opts.append((12, r.choice([b"\x2a", b"\x00\x32"])))     # another Content-Format: state is released
+            m = 1
         opts.sort(key=lambda o: o[0])
         pl = gen_wire.rbytes(r, size if m or r.random() < 0.5 else r.randrange(1, size + 1))
         out.append(gen_wire.py_serialize("udp", r.choice([0, 0, 1]) if optnum == 27 else r.choice([1, 1, 0]),
